@@ -3,9 +3,11 @@ package c13
 
 import (
 	"fmt"
+	"math/big"
 	"net/http"
 	"net/http/httptest"
 	"strconv"
+	"strings"
 	"testing"
 	"time"
 
@@ -337,4 +339,107 @@ func TestC13_BucketSet(t *testing.T) {
 
 func TestC13_HTTPLimiter(t *testing.T) {
 	rapid.Check(t, func(t *rapid.T) { runProgram(t, true) })
+}
+
+// TestC13_Quota: volume quotas - long periods (an hour to 30 days), averages and bursts of
+// 10^5..4*10^9 units, requests of thousands to millions of units (bytes of an upload). The
+// arithmetic is the same as for small rates: a rejected request costs nothing, the advertised
+// wait is sufficient, and nothing is admitted beyond burst + average x elapsed/period.
+func TestC13_Quota(t *testing.T) {
+	rapid.Check(t, func(t *rapid.T) {
+		period := rapid.SampledFrom([]time.Duration{time.Hour, 24 * time.Hour, 30 * 24 * time.Hour}).Draw(t, "period")
+		avg := rapid.SampledFrom([]int64{100000, 3600000, 100000000, 3600000000, 4000000000}).Draw(t, "average")
+		burst := avg
+		if rapid.Bool().Draw(t, "smallerBurst") {
+			burst = avg / int64(rapid.IntRange(2, 10).Draw(t, "burstDiv"))
+		}
+		rates := []gen.Rate{{Period: period, Average: avg, Burst: burst}}
+		if rapid.IntRange(0, 2).Draw(t, "secondRate") == 0 { // a short-period rate next to it
+			rates = append(rates, gen.Rate{Period: time.Second, Average: burst, Burst: burst})
+		}
+		rs, err := gen.RateSet(rates)
+		if err != nil {
+			t.Fatal(err)
+		}
+		clock.Freeze(epoch)
+		defer clock.Unfreeze()
+		httpLevel := rapid.Bool().Draw(t, "httpLevel")
+		var l limiter
+		if httpLevel {
+			served := new(int)
+			tl, err := ratelimit.New(http.HandlerFunc(func(w http.ResponseWriter, r *http.Request) { *served++ }), gen.HeaderExtractor, rs)
+			if err != nil {
+				t.Fatal(err)
+			}
+			l = httpLimiter{tl, served, t}
+		} else {
+			l = tbsLimiter{ratelimit.NewTokenBucketSet(rs)}
+		}
+		var log []string
+		var now time.Duration
+		var admitted int64
+		// spend most or all of the burst
+		first := burst - rapid.Int64Range(0, burst/4).Draw(t, "keep")
+		if d := l.do(first); !d.Admitted {
+			t.Fatalf("a request of %d units against a full burst of %d was not admitted: %v", first, burst, d)
+		}
+		admitted += first
+		retries := 0
+		for i := rapid.IntRange(3, 25).Draw(t, "nreq"); i > 0; i-- {
+			n := rapid.Int64Range(1, burst).Draw(t, "units")
+			switch rapid.IntRange(0, 3).Draw(t, "sizeClass") {
+			case 0:
+				n = rapid.Int64Range(1, 10000).Draw(t, "unitsSmall")
+			case 1:
+				n = rapid.Int64Range(1000000, 5000000).Draw(t, "unitsMB")
+				if n > burst {
+					n = burst
+				}
+			}
+			d := l.do(n)
+			log = append(log, fmt.Sprintf("+%v x%d -> %v", now, n, d))
+			bound := func() {
+				// nothing beyond burst + average x elapsed / period (+1 for rounding)
+				limit := new(big.Int).Mul(big.NewInt(avg), big.NewInt(int64(now)))
+				limit.Div(limit, big.NewInt(int64(period)))
+				limit.Add(limit, big.NewInt(burst+1))
+				if big.NewInt(admitted).Cmp(limit) > 0 {
+					t.Fatalf("%d units admitted within %v, the rate %v allows at most %v\n%s", admitted, now, rates[0], limit, strings.Join(log, "\n"))
+				}
+			}
+			switch {
+			case d.Admitted:
+				admitted += n
+				bound()
+			case d.Err:
+				t.Fatalf("a request of %d units (burst %d) was refused outright\n%s", n, burst, strings.Join(log, "\n"))
+			default:
+				if d.Delay <= 0 {
+					t.Fatalf("rejected with a non-positive delay %v\n%s", d.Delay, strings.Join(log, "\n"))
+				}
+				if rapid.Bool().Draw(t, "retry") {
+					// no competing traffic: after exactly the advertised wait the same request passes
+					if httpLevel && d.Delay > 9*period {
+						break // the source's entry would have expired meanwhile (another clause)
+					}
+					clock.Advance(d.Delay)
+					now += d.Delay
+					d2 := l.do(n)
+					log = append(log, fmt.Sprintf("+%v x%d (retry after the advertised %v) -> %v", now, n, d.Delay, d2))
+					if !d2.Admitted {
+						t.Fatalf("a request of %d units was told to wait %v; retried after exactly that, with no other traffic, it was answered %v\nrates %v\n%s", n, d.Delay, d2, rates, strings.Join(log, "\n"))
+					}
+					admitted += n
+					bound()
+					retries++
+				}
+			}
+			if rapid.Bool().Draw(t, "advance") {
+				g := time.Duration(rapid.Int64Range(int64(time.Millisecond), int64(period)/20).Draw(t, "gap"))
+				clock.Advance(g)
+				now += g
+			}
+		}
+		vstat.Case(fmt.Sprintf("quota|%v|%v|%s", rates, httpLevel, strings.Join(log, ";")), retries > 0, []string{"volume-quota"}, map[string]any{"rates": fmt.Sprint(rates), "http": httpLevel, "history": log})
+	})
 }
